@@ -90,12 +90,14 @@ def allSupported (g' : Geometry) : Bool := g'.atts.all (·.dedupSupported)
 
 /-! ### deduplication -/
 
-/-- `PointCloud::DeduplicateAttributeValues` returned `g'` for `g` -/
-def verifyDedupValues (g g' : Geometry) : Flags :=
+/-- `PointCloud::DeduplicateAttributeValues` returned `g'` for `g`: the demanded clauses -/
+def demandedDedupValues (g g' : Geometry) : Flags :=
   [("valid", g'.valid && sameShape g g'),
    ("describes", sameDescription g g'),
-   ("no-duplicate-values", g.numPoints == 0 || noDupValuesSupported g'),
-   ("strict-no-duplicate-values", g.numPoints == 0 || noDupValuesAll g')]
+   ("no-duplicate-values", g.numPoints == 0 || noDupValuesSupported g')]
+
+def verifyDedupValues (g g' : Geometry) : Flags :=
+  demandedDedupValues g g' ++ [("strict-no-duplicate-values", g.numPoints == 0 || noDupValuesAll g')]
 
 /-- `PointCloud::DeduplicatePointIds` returned `g'` for `g` -/
 def verifyDedupPointIds (g g' : Geometry) : Flags :=
@@ -103,14 +105,17 @@ def verifyDedupPointIds (g g' : Geometry) : Flags :=
    ("describes", sameDescriptionUpToDuplicatePoints g g'),
    ("no-duplicate-points", noDupKeys g')]
 
-/-- both (what the builders run) -/
-def verifyDedupBoth (g g' : Geometry) : Flags :=
+/-- both (what the builders run): the demanded clauses -/
+def demandedDedupBoth (g g' : Geometry) : Flags :=
   [("valid", g'.valid && sameShape g g'),
    ("describes", sameDescriptionUpToDuplicatePoints g g'),
    ("no-duplicate-values", g.numPoints == 0 || noDupValuesSupported g'),
    ("no-duplicate-points", noDupKeys g'),
-   ("no-identical-points", g.numPoints == 0 || !allSupported g' || noDupTuples g'),
-   ("strict-no-duplicate-values", g.numPoints == 0 || noDupValuesAll g'),
+   ("no-identical-points", g.numPoints == 0 || !allSupported g' || noDupTuples g')]
+
+def verifyDedupBoth (g g' : Geometry) : Flags :=
+  demandedDedupBoth g g' ++
+  [("strict-no-duplicate-values", g.numPoints == 0 || noDupValuesAll g'),
    ("strict-no-identical-points", noDupTuples g')]
 
 /-! ### MeshCleanup -/
@@ -170,36 +175,45 @@ def verifyStrips (restart : Bool) (g : Geometry) : Option (List Nat) → Flags
 
 /-! ### builders -/
 
+/-- `TriangleSoupMeshBuilder::Finalize` returned `g'` for a well-formed `s`: the demanded clauses -/
+def demandedBuildMesh (s : MeshSpec) (g' : Geometry) : Flags :=
+  [("valid", g'.valid && g'.isMesh && g'.atts.length == s.atts.length),
+   ("describes", sameTriangles (describesA g') s.triangles),
+   ("no-duplicate-values", s.numFaces == 0 || noDupValuesSupported g'),
+   ("no-duplicate-points", noDupKeys g'),
+   ("no-identical-points", s.numFaces == 0 || !allSupported g' || noDupTuples g')]
+
 /-- `TriangleSoupMeshBuilder::Finalize` returned `nullptr` (`none`) or `g'` -/
 def verifyBuildMesh (s : MeshSpec) : Option Geometry → Flags
   | none => [("status", !s.wellFormed)]
   | some g' =>
     if !s.wellFormed then []
-    else
-      [("valid", g'.valid && g'.isMesh && g'.atts.length == s.atts.length),
-       ("describes", sameTriangles (describesA g') s.triangles),
-       ("no-duplicate-values", s.numFaces == 0 || noDupValuesSupported g'),
-       ("no-duplicate-points", noDupKeys g'),
-       ("no-identical-points", s.numFaces == 0 || !allSupported g' || noDupTuples g'),
-       ("strict-no-duplicate-values", s.numFaces == 0 || noDupValuesAll g'),
+    else demandedBuildMesh s g' ++
+      [("strict-no-duplicate-values", s.numFaces == 0 || noDupValuesAll g'),
        ("strict-no-identical-points", noDupTuples g')]
+
+/-- `PointCloudBuilder::Finalize(dedup)` returned `g'` for a well-formed `s`: the demanded clauses -/
+def demandedBuildPointCloud (s : PointCloudSpec) (g' : Geometry) : Flags :=
+  if s.dedup then
+    [("valid", g'.valid && !g'.isMesh && g'.atts.length == s.atts.length),
+     ("describes", sameSet (describesA g') s.points && g'.numPoints ≤ s.numPoints),
+     ("no-duplicate-values", s.numPoints == 0 || noDupValuesSupported g'),
+     ("no-duplicate-points", noDupKeys g'),
+     ("no-identical-points", s.numPoints == 0 || !allSupported g' || noDupTuples g')]
+  else
+    [("valid", g'.valid && !g'.isMesh && g'.atts.length == s.atts.length),
+     ("describes", (describesA g').isPerm s.points)]
 
 /-- `PointCloudBuilder::Finalize(dedup)` returned `nullptr` (`none`) or `g'` -/
 def verifyBuildPointCloud (s : PointCloudSpec) : Option Geometry → Flags
   | none => [("status", !s.wellFormed)]
   | some g' =>
     if !s.wellFormed then []
-    else if s.dedup then
-      [("valid", g'.valid && !g'.isMesh && g'.atts.length == s.atts.length),
-       ("describes", sameSet (describesA g') s.points && g'.numPoints ≤ s.numPoints),
-       ("no-duplicate-values", s.numPoints == 0 || noDupValuesSupported g'),
-       ("no-duplicate-points", noDupKeys g'),
-       ("no-identical-points", s.numPoints == 0 || !allSupported g' || noDupTuples g'),
-       ("strict-no-duplicate-values", s.numPoints == 0 || noDupValuesAll g'),
-       ("strict-no-identical-points", noDupTuples g')]
-    else
-      [("valid", g'.valid && !g'.isMesh && g'.atts.length == s.atts.length),
-       ("describes", (describesA g').isPerm s.points)]
+    else demandedBuildPointCloud s g' ++
+      (if s.dedup then
+        [("strict-no-duplicate-values", s.numPoints == 0 || noDupValuesAll g'),
+         ("strict-no-identical-points", noDupTuples g')]
+       else [])
 
 end C14
 end Draco
